@@ -84,4 +84,60 @@ def segments : Bytes → List Bytes × Bytes
       | [] => ([], b :: r.2)
       | p :: ps => ((b :: p) :: ps, r.2)
 
+/-! ### connection events between the `data_received` calls
+
+  Every gateway class hands ONE protocol object to every connection it ever makes
+  (`lambda: transport.protocol` in `sync_connect` / `async_connect` of gateway_serial.py and
+  gateway_tcp.py), and neither `BaseMySensorsProtocol.connection_lost` / `_connection_lost` nor
+  `connection_made` touches the Packetizer buffer.  `keep = true` is that code: the
+  unterminated tail of a lost connection is still in the buffer when the next connection
+  delivers bytes.  `keep = false` is the other policy a protocol class could follow and still
+  satisfy C19 (the buffer is emptied when the connection is lost); it exists so that the
+  correspondence can tell the two apart from a third behaviour (a tail handed over as a line, a
+  complete line lost). -/
+
+inductive ConnEv where
+  /-- `data_received(bytes)` -/
+  | data (bytes : Bytes)
+  /-- `connection_lost(exc)` (with or without an error: the framing does not look at it) -/
+  | lost
+  /-- `connection_made(transport)` on the same protocol object -/
+  | made
+  deriving DecidableEq, Repr
+
+def connStep (keep : Bool) (dec : Bytes → Str) (f : Framer) : ConnEv → Framer × List Str
+  | .data b => dataReceived dec f b
+  | .lost => (if keep then f else {}, [])
+  | .made => (f, [])
+
+def feedEvents (keep : Bool) (dec : Bytes → Str) (f : Framer) : List ConnEv → Framer × List Str
+  | [] => (f, [])
+  | e :: es =>
+    let r := connStep keep dec f e
+    let r' := feedEvents keep dec r.1 es
+    (r'.1, r.2 ++ r'.2)
+
+/-- the chunks of an event sequence, connection boundaries forgotten -/
+def dataOf : List ConnEv → List Bytes
+  | [] => []
+  | .data b :: es => b :: dataOf es
+  | .lost :: es => dataOf es
+  | .made :: es => dataOf es
+
+/-- the byte stream of each connection (a new one starts at every `lost`); never empty -/
+def sessions : List ConnEv → List Bytes
+  | [] => [[]]
+  | .data b :: es =>
+    match sessions es with
+    | [] => [b]
+    | s :: ss => (b ++ s) :: ss
+  | .lost :: es => [] :: sessions es
+  | .made :: es => sessions es
+
+/-- specification of the `keep = false` policy: the complete segments of every connection's
+    own stream (`buf` is what the buffer held before the first one) -/
+def sessLines (dec : Bytes → Str) (buf : Bytes) : List Bytes → List Str
+  | [] => []
+  | s :: ss => (segments (buf ++ s)).1.map dec ++ sessLines dec [] ss
+
 end MySensors
